@@ -4,6 +4,7 @@ package main
 // plus obligations that each see a prefix of the items.
 
 import (
+	"runtime"
 	"bytes"
 	"context"
 	"fmt"
@@ -420,7 +421,27 @@ type solveOut struct {
 	solver string
 }
 
+// cpuTokens bounds the number of solver processes running at once to the number of cores, so that a
+// solver's wall-clock timeout measures its own work and not the contention with its competitors.
+var cpuTokens = make(chan struct{}, maxInt(2, runtime.NumCPU()-1))
+
+func maxInt(a, b int) int {
+	if a > b {
+		return a
+	}
+	return b
+}
+
 func runSolver(ctx context.Context, sp solverSpec, file string, sec int) solveOut {
+	select {
+	case cpuTokens <- struct{}{}:
+		defer func() { <-cpuTokens }()
+	case <-ctx.Done():
+		return solveOut{"cancelled", "", 0, sp.name}
+	}
+	if ctx.Err() != nil {
+		return solveOut{"cancelled", "", 0, sp.name}
+	}
 	t0 := time.Now()
 	cctx, cancel := context.WithTimeout(ctx, time.Duration(sec+2)*time.Second)
 	defer cancel()
@@ -495,6 +516,8 @@ func batchSolve(c *Ctx, obls []*Obligation, dir string, stats *solveStats) {
 				return
 			}
 			defer os.Remove(file)
+			cpuTokens <- struct{}{}
+			defer func() { <-cpuTokens }()
 			t0 := time.Now()
 			ctx, cancel := context.WithTimeout(context.Background(), time.Duration(3*len(part)+10)*time.Second)
 			defer cancel()
